@@ -37,6 +37,15 @@ class Prop(BaseProp):
         ti, tr, ms = drv.call_many([(T('ttable'), tree, atoms), (T('ttable'), rt, atoms), (T('simplify'), tree)])
         if ti != tr:
             return Verdict('spec', case, 'truth table changed', impl=rt, model=ms)
+        if tree[0] in ('and', 'or'):
+            # the unsorted variant is a simplification too: same truth table, no new license
+            try:
+                ru = impl.tree_c(impl.build_tree(tree).simplify(sort=False))
+            except BaseException as ex:  # noqa
+                return Verdict('spec', case, 'simplify(sort=False) raised ' + type(ex).__name__)
+            tu = drv.call(T('ttable'), ru, atoms)
+            if tu != ti or [a for a in gen.atoms_of(ru) if a not in gen.atoms_of(tree)]:
+                return Verdict('spec', case, 'simplify(sort=False): truth table changed or a license appeared', impl=ru, model=ms)
         extra = [a for a in gen.atoms_of(rt) if a not in gen.atoms_of(tree)]
         if extra:
             return Verdict('spec', case, 'result mentions a license absent from the input', impl=rt, model=ms)
